@@ -1228,7 +1228,33 @@ func (e *versEngine) explore(ver string) ([]vpath, bool) {
 							ev = append(ev, vevent{kind: "store", detail: strings.Join(sortedKeys(s.stStores), ","), pos: in.Pos(), instr: in})
 						}
 						if len(s.wireWrites) > 0 && passesSt {
-							ev = append(ev, vevent{kind: "fixup", detail: strings.Join(sortedKeys(s.wireWrites), ","), pos: in.Pos(), instr: in})
+							// writes relative to a message parameter (a fix-up written as a method of the array it
+							// rewrites) are named by the wire path of the argument
+							ww := map[string]bool{}
+							for k := range s.wireWrites {
+								nk := k
+								for pi, prm := range g.Params {
+									if pi >= len(in.Call.Args) {
+										break
+									}
+									root := wireRootName(prm.Type())
+									if root == "" {
+										continue
+									}
+									ap := wirePathOf(in.Call.Args[pi])
+									if ap == "" || ap == root {
+										continue
+									}
+									switch {
+									case strings.HasPrefix(k, root+"(?)"):
+										nk = ap + strings.TrimPrefix(k, root+"(?)")
+									case strings.HasPrefix(k, root+"."):
+										nk = ap + strings.TrimPrefix(k, root)
+									}
+								}
+								ww[nk] = true
+							}
+							ev = append(ev, vevent{kind: "fixup", detail: strings.Join(sortedKeys(ww), ","), pos: in.Pos(), instr: in})
 						}
 					}
 					if s.buildsSlim && g.Signature.Recv() != nil {
